@@ -95,6 +95,7 @@ func init() {
 			c.Notes = append(c.Notes, matrixEvidence(rows)...)
 			p.ruleEmptyContainee(c)
 			p.ruleConvexGate(c)
+			p.ruleConvexFSM(c)
 			p.ruleB1(c, nil)
 			p.ruleE8(c, "geometry.Rect.ContainsRect", "geometry.Rect.ContainsPoint")
 			c.Exhaustive = true
@@ -121,6 +122,7 @@ func init() {
 			p.ruleRecursion(c)
 			p.ruleNilGuards(c)
 			p.ruleParseDiscipline(c)
+			p.ruleStride(c)
 			c.Assume("coordinates are finite (math.Nextafter makes progress)")
 			c.Assume("dependency code (gjson, pretty, sjson, rtree) terminates and calls its callbacks with sub-values / stored items")
 		},
@@ -135,6 +137,7 @@ func init() {
 			p.ruleCircleConvention(c)
 			p.ruleFeatureProperties(c)
 			p.rulePositionIndex(c)
+			p.ruleStride(c)
 			p.ruleFloatFormat(c)
 			p.ruleJSONGrammar(c)
 			p.ruleMembersNonEmpty(c)
@@ -281,6 +284,7 @@ func init() {
 			p.ruleE8(c, "(*geometry.baseSeries).NumSegments", "(*geometry.baseSeries).Empty", "geometry.processPoints#entry-guard")
 			p.ruleDerivedAttributes(c)
 			p.ruleConvexGate(c)
+			p.ruleConvexFSM(c)
 			c.Exhaustive = true
 		},
 	})
